@@ -1,5 +1,7 @@
 package main
 
+import "golang.org/x/tools/go/ssa"
+
 func init() { register("C09", c09) }
 
 func c09(c *Check) {
@@ -15,6 +17,8 @@ func c09(c *Check) {
 	c.Rule("C09/pending-set-recorded-before-switch", "within one update the list announced by an epoch header is recorded (SetPendingValidators) before the switch block can read the pending list (GetPendingValidators): with a single validator the switch offset floor(1/2) is 0, the epoch header is also the switch header, and the set that becomes active must be the one that very header carries", 1)
 	c.Rule("C09/no-stale-validator-set", "the BSC update does not keep using, after it switched clientState.Validators, a value it derived from the old set (the recent-signer window of the final prune is that of the set now active)", 1)
 	staleFieldReads(c, "C09/no-stale-validator-set", "x/xibc/clients/light-clients/bsc/types.update")
+	c.Rule("C09/window-and-pending-set-exported-whole", "the BSC client's metadata export (recent-signer window, pending validators) collects every entry: its collecting callback never returns the value that ends the traversal", 2)
+	collectorsNeverStop(c, "C09/window-and-pending-set-exported-whole", []*ssa.Function{c.F("x/xibc/clients/light-clients/bsc/types.ClientState.ExportMetadata")})
 	c.Rule("C09/nothing-before-validity", "BSC CheckHeaderAndUpdateState changes state only after checkValidity accepted the header", 1)
 	nothingBeforeValidity(c, "C09/nothing-before-validity", "x/xibc/clients/light-clients/bsc/types.ClientState.CheckHeaderAndUpdateState")
 	neverBefore(c, "C09/pending-set-recorded-before-switch", c.F("x/xibc/clients/light-clients/bsc/types.update"), "bsc/types.GetPendingValidators", "bsc/types.SetPendingValidators",
